@@ -178,7 +178,9 @@ func (r *Registry) GetNoCacheOutputHash(ctx context.Context, target *model.Targe
 				return err
 			}
 			outputsMutex.Lock()
-			digests = append(digests, outputDigest)
+			// Bind the digest to the output it belongs to: otherwise two outputs could trade
+			// their contents without changing the hash that the dependants see
+			digests = append(digests, localOutputRef.String()+"="+outputDigest)
 			outputsMutex.Unlock()
 			return nil
 		})
